@@ -96,7 +96,9 @@ class SchemaDirective(SchemaVisitor):
         self.args = args or {}
 
 
-def _directive_nodes(root: _ast.Node) -> Set[int]:
+def _directive_nodes(
+    root: Union[_ast.Node, Sequence[_ast.Node]]
+) -> Set[int]:
     # Identity of every directive node written below `root`.
     found = set()  # type: Set[int]
     stack = [root]  # type: list
@@ -115,7 +117,7 @@ def apply_schema_directives(
     schema: Schema,
     schema_directives: Sequence[TSchemaDirective],
     *,
-    within: Optional[_ast.Document] = None
+    within: Optional[Union[_ast.Node, Sequence[_ast.Node]]] = None
 ) -> Schema:
     """
     Apply :class:`~py_gql.schema.SchemaDirective` implementers to a given schema.
@@ -136,7 +138,8 @@ def apply_schema_directives(
         schema: Schema to modify
         schema_directives: List of schema directives (`~py_gql.schema.SchemaDirective`).
             Each directive must implement the `definition` attribute.
-        within: When set, only the directives written in that document are
+        within: When set (a document or a list of definitions), only the
+            directives written there are
             applied. :func:`~py_gql.sdl.extend_schema` uses this to apply the
             directives of the extension document only: the elements of the
             schema being extended keep their parse nodes, and the directives
